@@ -262,7 +262,10 @@ class GMDistribution:
 
     @staticmethod
     def _normalize_params(means, weights):
-        means = np.atleast_1d(np.squeeze(means))
+        means = np.asanyarray(means)
+        if not (means.ndim == 2 and means.shape[0] == 1):
+            # a single k-dimensional component, shape (1, k), keeps its component axis
+            means = np.atleast_1d(np.squeeze(means))
         if means.ndim > 2:
             raise ValueError('means.ndim = {} but must be at most 2.'.format(means.ndim))
 
